@@ -263,6 +263,7 @@ def run(tier, replay=None):
 
     run_r6(chk, fns)
     run_r7(chk, fns)
+    run_r8(chk, fns)
 
     # ---- R5 descent guard
     run_r5(chk, [f for f in F.functions if f['inst'] in (0, 2)])
@@ -703,6 +704,317 @@ def run_r7(chk, fns):
            '%s:%d' % (rel(f['file']), f['line']), bad is None,
            '' if bad is None else 'left node has children: %s, right node has children: %s, children equal: %s -> the '
            'walk %s' % (bad[0], bad[1], bad[2], 'continues' if bad[3] else 'returns false'), key='R7|rec_equal')
+
+
+# ---------------------------------------------------------------- R8 insertion-result protocol
+
+def _insert_node_protocol(f, eta):
+    """Abstract results of insert_node_<eta>: {(created, lowered): (first is null, second)} obtained by evaluating its
+    body on every valuation of (try_emplace inserted, unify_lifetimes changed the value); store_filtration on."""
+    from gsa import predeval
+    tps = f.get('tparams') or []
+    bind = dict(zip(tps, eta))
+    out = {}
+    for created in (True, False):
+        for lowered in ((False,) if created else (True, False)):
+            st = {'null': False}
+
+            def oracle(e, env, created=created, lowered=lowered, st=st):
+                k = e.get('k')
+                if k == 'VarDecl':
+                    return 'pair' if e.get('n') == 'ins' else 'opaque'
+                if k == 'DeclRefExpr':
+                    if e.get('n') in bind and bind[e['n']] in ('true', 'false'):
+                        return bind[e['n']] == 'true'
+                    if e.get('n') == 'ins':
+                        return ('pair', st['null'], created)
+                if k in ir.MEMBER_KINDS:
+                    if e.get('n') == 'store_filtration':
+                        return True
+                    if e.get('n') == 'second' and ir.show(e) == 'ins.second':
+                        return created
+                if ir.is_call(e):
+                    nm = ir.call_name(e)
+                    if nm == 'unify_lifetimes':
+                        st['unify'] = True
+                        return lowered
+                    if nm == 'has_children':
+                        return True
+                    if nm in ('assign_children', REG):
+                        return True
+                if k == 'BinaryOperator' and e.get('op') == '=' and ir.show((e.get('c') or [None])[0]) == 'ins.first':
+                    st['null'] = True
+                    return True
+                return None
+            ev = predeval.Evaluator(oracle)
+            try:
+                r = ev.run(f['body'])
+            except predeval.Unknown as ex:
+                raise AnalysisBroken('C01: insert_node_ has a shape the evaluator does not know: %s' % ex)
+            if not (isinstance(r, tuple) and r[0] == 'pair'):
+                raise AnalysisBroken('C01: insert_node_ does not return its try_emplace result')
+            if not created and lowered and not st.get('unify'):
+                continue    # this instantiation never lowers a value: the state does not exist
+            out[(created, lowered)] = (r[1], r[2])
+    return out
+
+
+def run_r8(chk, fns):
+    """R8: the result of an inserting call is a three-state answer - created (handle, true), existing and lowered
+    (handle, false), existing and unchanged (null, false). A function that runs a call carrying the filtration value
+    (propagation to further faces) in some of these states and not in others must run it in every state in which
+    the tree or a value changed; skipping is only sound when nothing changed (by monotonicity every face then already
+    has a value that is low enough). Each inserting call's states are derived from insert_node_ itself on all
+    valuations of (inserted, value lowered), for the template arguments written at the call."""
+    from gsa import predeval
+    node = [f for f in fns if f['name'] == 'insert_node_']
+    if len(node) != 1:
+        raise AnalysisBroken('C01: insert_node_ not found')
+    node = node[0]
+    proto_cache = {}
+
+    def proto(eta):
+        key = tuple(eta)
+        if key not in proto_cache:
+            proto_cache[key] = _insert_node_protocol(node, eta)
+        return proto_cache[key]
+
+    def direct_protocol(call):
+        ce = ir.callee_expr(call)
+        if ir.call_name(call) == 'insert_node_' and ce is not None and ce.get('eta'):
+            return proto(ce['eta'])
+        return None
+
+    # functions whose every returned value is an inserting call's result (or their own recursive result)
+    returns_proto = {}
+    for _ in range(3):
+        for f in fns:
+            if f['name'] in returns_proto or f['name'] == 'insert_node_':
+                continue
+            rets = [x for x in ir.walk(f.get('body'), False) if x.get('k') == 'ReturnStmt' and x.get('value')]
+            if not rets:
+                continue
+            binders = {}
+            for x in ir.walk(f.get('body'), False):
+                if x.get('k') == 'VarDecl' and x.get('init') is not None:
+                    i = ir.skipcasts(x['init'])
+                    if ir.is_call(i):
+                        binders.setdefault(x['n'], []).append(i)
+            protos = []
+            ok = True
+            for r in rets:
+                v = ir.skipcasts(r['value'])
+                cands = [v] if ir.is_call(v) else binders.get(v.get('n'), []) if v.get('k') == 'DeclRefExpr' else []
+                if not cands:
+                    ok = False
+                    break
+                for c in cands:
+                    pr = direct_protocol(c)
+                    if pr is None and ir.call_name(c) == f['name']:
+                        continue
+                    if pr is None and ir.call_name(c) in returns_proto:
+                        pr = returns_proto[ir.call_name(c)]
+                    if pr is None:
+                        ok = False
+                        break
+                    protos.append(pr)
+                if not ok:
+                    break
+            if ok and protos and all(p_ == protos[0] for p_ in protos):
+                returns_proto[f['name']] = protos[0]
+
+    def call_protocol(call):
+        pr = direct_protocol(call)
+        if pr is None and ir.call_name(call) in returns_proto:
+            pr = returns_proto[ir.call_name(call)]
+        return pr
+
+    n_sites = n_states = 0
+    for f in fns:
+        if f['name'] == 'insert_node_' or f.get('body') is None:
+            continue
+        fparams = {p_['n'] for p_ in f.get('params', []) if 'Filtration_value' in (p_.get('t') or '')}
+        # binding sites: V = <inserting call> (declaration or assignment)
+        sites = []
+        for x in ir.walk(f['body'], False):
+            if x.get('k') == 'VarDecl' and x.get('init') is not None and ir.is_call(ir.skipcasts(x['init'])):
+                pr = call_protocol(ir.skipcasts(x['init']))
+                if pr:
+                    sites.append((x['n'], id(x), x.get('l'), pr))
+            if x.get('k') == 'BinaryOperator' and x.get('op') == '=':
+                l, r = (x.get('c') or [None, None])[:2]
+                l, r = ir.skipcasts(l), ir.skipcasts(r)
+                if l is not None and l.get('k') == 'DeclRefExpr' and ir.is_call(r):
+                    pr = call_protocol(r)
+                    if pr:
+                        sites.append((l['n'], id(x), x.get('l'), pr))
+        if not sites:
+            continue
+        names = {s_[0] for s_ in sites}
+        decided = [x for x in ir.walk(f['body'], False) if x.get('k') == 'IfStmt' and
+                   ir.contains(x.get('cond'), lambda y: y.get('k') in ir.MEMBER_KINDS and y.get('n') in
+                               ('first', 'second') and ir.show(y).split('.')[0] in names)]
+        if not decided:
+            continue
+        where = '%s:%d' % (rel(f['file']), f['line'])
+        site_ids = {s_[1] for s_ in sites}
+        rel_cache = {}
+
+        def relevant(n, site_ids=site_ids, names=names, fparams=fparams, rel_cache=rel_cache):
+            """a statement matters if it binds a result, decides on one, carries the filtration value on, or returns"""
+            if id(n) not in rel_cache:
+                rel_cache[id(n)] = ir.contains(n, lambda y: id(y) in site_ids or y.get('k') == 'ReturnStmt' or (
+                    y.get('k') == 'DeclRefExpr' and (y.get('n') in names or y.get('n') in fparams)), False)
+            return rel_cache[id(n)]
+        for (vname, sid, sline, pr) in sites:
+            n_sites += 1
+            # evaluate the whole body for each state of this site; the other sites take their first state;
+            # conditions that do not look at a result are free and explored both ways
+            results = {}
+            for state, (isnull, second) in sorted(pr.items()):
+                frees = [{}]
+                prop_any = None
+                done = []
+                while frees:
+                    val = frees.pop()
+                    seen = {'bound': False, 'prop': False}
+
+                    class Need(Exception):
+                        def __init__(self, t):
+                            self.t = t
+
+                    def is_prop(c):
+                        return any(ir.contains(a, lambda y: y.get('k') == 'DeclRefExpr' and y.get('n') in fparams)
+                                   for a in ir.call_args(c))
+
+                    cur = {}
+
+                    def oracle(e, env, val=val, seen=seen, cur=cur):
+                        k = e.get('k')
+                        if k == 'VarDecl':
+                            i = ir.skipcasts(e.get('init')) if e.get('init') is not None else None
+                            if id(e) == sid:
+                                seen['bound'] = True
+                                cur[e['n']] = (isnull, second)
+                                return 'result'
+                            if i is not None and ir.is_call(i):
+                                if seen['bound'] and is_prop(i):
+                                    seen['prop'] = True
+                                p2 = call_protocol(i)
+                                if p2:
+                                    cur[e['n']] = sorted(p2.values())[0]
+                            return 'opaque'
+                        if k == 'BinaryOperator' and e.get('op') == '=':
+                            l, r = (e.get('c') or [None, None])[:2]
+                            l, r = ir.skipcasts(l), ir.skipcasts(r)
+                            if id(e) == sid:
+                                seen['bound'] = True
+                                seen['prop'] = False
+                                cur[l['n']] = (isnull, second)
+                                return True
+                            if l is not None and l.get('k') == 'DeclRefExpr' and ir.is_call(r):
+                                p2 = call_protocol(r)
+                                if p2:
+                                    cur[l['n']] = sorted(p2.values())[0]
+                                if seen['bound'] and is_prop(r):
+                                    seen['prop'] = True
+                            return True
+                        if k in ir.MEMBER_KINDS and e.get('n') == 'second':
+                            b = ir.show(e).split('.')[0]
+                            if b in cur and ir.show(e) == b + '.second':
+                                return cur[b][1]
+                        if k in ('BinaryOperator', 'CXXOperatorCallExpr') and e.get('op') in ('==', '!='):
+                            cs = e.get('c') or []
+                            cs = cs[-2:]
+                            ts = [ir.show(c) for c in cs]
+                            for a, b in ((0, 1), (1, 0)):
+                                base = ts[a].split('.')[0]
+                                if base in cur and ts[a] == base + '.first' and (
+                                        'null_simplex' in ts[b] or ts[b].endswith('()')):
+                                    return cur[base][0] == (e['op'] == '==')
+                        if ir.is_call(e):
+                            if seen['bound'] and is_prop(e):
+                                seen['prop'] = True
+                            return 'opaque'
+                        if k == 'DeclRefExpr' and e.get('n') in cur:
+                            return 'result'
+                        return None
+
+                    class Ev(predeval.Evaluator):
+                        def truth(self, e):
+                            try:
+                                v = self.expr(e)
+                            except predeval.Unknown:
+                                v = None
+                            if isinstance(v, bool):
+                                return v
+                            t = ir.show(e)
+                            for c in ir.walk(e):
+                                if ir.is_call(c) and seen['bound'] and is_prop(c):
+                                    seen['prop'] = True
+                            if t not in val:
+                                raise Need(t)
+                            return val[t]
+
+                        def stmt(self, s_):
+                            if s_ is None:
+                                return
+                            k = s_.get('k')
+                            if not relevant(s_):
+                                return
+                            if k in ('ForStmt', 'WhileStmt', 'CXXForRangeStmt', 'DoStmt'):
+                                # zero or one iteration (free condition)
+                                self.tick()
+                                if k == 'ForStmt':
+                                    self.stmt(s_.get('init'))
+                                t = 'loop@%s' % s_.get('l')
+                                if t not in val:
+                                    raise Need(t)
+                                if val[t]:
+                                    self.stmt(s_.get('body'))
+                                return
+                            if k in ('CompoundStmt', 'DeclStmt', 'IfStmt', 'ReturnStmt', 'NullStmt'):
+                                return predeval.Evaluator.stmt(self, s_)
+                            try:
+                                self.expr(s_)
+                            except predeval.Unknown:
+                                for c in ir.walk(s_):
+                                    if ir.is_call(c) and seen['bound'] and is_prop(c):
+                                        seen['prop'] = True
+                    ev = Ev(oracle)
+                    try:
+                        try:
+                            ev.run(f['body'])
+                        except Need as nd:
+                            if len(val) > 14:
+                                raise AnalysisBroken('C01 R8: too many free conditions in %s' % f['name'])
+                            for b in (True, False):
+                                v2 = dict(val)
+                                v2[nd.t] = b
+                                frees.append(v2)
+                            continue
+                    except predeval.Unknown as ex:
+                        raise AnalysisBroken('C01 R8: %s has a shape the evaluator does not know: %s' % (f['name'], ex))
+                    if seen['bound']:
+                        n_states += 1
+                        done.append(seen['prop'])
+                results[state] = done
+            # obligation: if propagation depends on the state, it runs in every changed state
+            runs = {st_: (all(d) if d else None) for st_, d in results.items()}
+            some = {st_: (any(d) if d else None) for st_, d in results.items()}
+            depends = any(v for v in some.values()) and any(v is False for v in runs.values())
+            bad = [st_ for st_ in runs if (st_[0] or st_[1]) and runs[st_] is False and depends]
+            names_ = {(True, False): 'created', (False, True): 'existing, value lowered',
+                      (False, False): 'existing, unchanged'}
+            chk.ob('R8-insert-result', '%s: propagation after the inserting call bound to `%s` (line %s) runs in '
+                   'every state in which something changed' % (f['name'], vname, sline), where, not bad,
+                   '' if not bad else 'in state "%s" (result %s) the calls carrying the filtration value are skipped '
+                   'while they run in another state: faces of a re-inserted simplex keep a larger value than the '
+                   'simplex' % (names_[bad[0]], 'handle, %s' % str(pr[bad[0]][1]).lower()),
+                   key='R8|%s|%s' % (f['name'], vname), nontrivial=depends)
+    chk.count('R8 result sites', n_sites)
+    chk.count('R8 state evaluations', n_states)
+    chk.expect_count('R8', 'sites deciding on an inserting call\'s result', n_sites, 2)
 
 
 def run_r4(chk, fns):
